@@ -5,6 +5,7 @@ import (
 	"go/constant"
 	"go/token"
 	"go/types"
+	"sort"
 	"strings"
 
 	"golang.org/x/tools/go/ssa"
@@ -30,6 +31,7 @@ func init() {
 		c19Merkle(c)
 		c19OriginRule(c)
 		c19ValidatorDiscipline(c)
+		c19VerdictMemo(c)
 		c19UnitComplete(c)
 		c19ValidateOrder(c)
 		c19UntrustedLength(c)
@@ -76,6 +78,23 @@ func init() {
 			}
 			if !ok {
 				c.und("pad-prefix", "PadMessage", p.Pos(fnPos(f)), "copy(result[prefixLen:], msg) not recognised")
+			}
+			// the buffer is sized with the same prefix length the encoder reported: a second, hand-rolled computation of the
+			// varint length (seeded changes C19-B and C19-L) that is one short at a 7-bit boundary makes the buffer one byte
+			// too small for messages that already fill it, and copy() silently drops the last byte
+			nMk := 0
+			allInstrs(f, func(in ssa.Instruction) {
+				mk, isMk := in.(*ssa.MakeSlice)
+				if !isMk {
+					return
+				}
+				nMk++
+				lt := termInlDeep(p, mk.Len)
+				okLen := strings.Contains(lt, "binary.PutUvarint(") || strings.Contains(lt, "binary.AppendUvarint(")
+				c.check(okLen, "pad-prefix", "PadMessage: buffer size", p.Pos(posOf(in, f)), "the padded length is computed from the prefix length binary.PutUvarint/AppendUvarint reported", "the padded buffer is sized from a prefix length that does not come from the varint encoder ("+clip(lt, 160)+"): writer and sizing can disagree at a 7-bit boundary and the message tail is cut off")
+			})
+			if nMk == 0 {
+				c.und("pad-prefix", "PadMessage: buffer size", p.Pos(fnPos(f)), "allocation of the padded buffer not found")
 			}
 		} else {
 			c.und("pad-prefix", "PadMessage", "", "anchor not found")
@@ -707,4 +726,233 @@ func c19WireIndexGuarded(c *Ctx) {
 	if n == 0 {
 		c.und("wire-index-guarded", "consensus/propeller", "", "no wire conversion with constant index / array conversion found")
 	}
+}
+
+func clip(s string, n int) string {
+	if len(s) > n {
+		return s[:n] + "…"
+	}
+	return s
+}
+
+// termInlDeep: term of v with φ arms spelled out (the padded length is `φ(unpadded | unpadded + (divisor − remainder))`).
+func termInlDeep(p *Prog, v ssa.Value) string {
+	seen := map[ssa.Value]bool{}
+	var parts []string
+	var walk func(v ssa.Value, d int)
+	walk = func(v ssa.Value, d int) {
+		if v == nil || seen[v] || d > 8 {
+			return
+		}
+		seen[v] = true
+		parts = append(parts, term(v))
+		switch x := v.(type) {
+		case *ssa.Phi:
+			for _, e := range x.Edges {
+				walk(e, d+1)
+			}
+		case *ssa.BinOp:
+			walk(x.X, d+1)
+			walk(x.Y, d+1)
+		case *ssa.Convert:
+			walk(x.X, d+1)
+		case *ssa.ChangeType:
+			walk(x.X, d+1)
+		}
+	}
+	walk(v, 0)
+	return strings.Join(parts, " ; ")
+}
+
+// c19VerdictMemo: (verdict-memo-key) the function that checks the publisher's signature (it calls crypto.PubKey.Verify)
+// may answer from remembered verdicts only if the memory is keyed by everything the verdict depends on. Decided: every call
+// on a package-level object (a cache, a set …) whose result steers a branch of that function receives arguments that depend on
+// *all* the parameters the Verify call depends on (key, root, committee, nonce, signature). Seeded change C19-K remembers
+// rejected signatures under sha256(key ‖ signature): a unit with a corrupted nonce, verified first, blacklists the
+// publisher's genuine signature — every honest unit of the message is rejected afterwards.
+func c19VerdictMemo(c *Ctx) {
+	p := c.P
+	n := 0
+	for _, fn := range p.sortedFuncs() {
+		if pkgRelOf(fn) != "consensus/propeller" || fn.Origin() != nil || strings.HasSuffix(p.Pos(fnPos(fn)), "_test.go") {
+			continue
+		}
+		var verify *ssa.CallCommon
+		var verifyInstr ssa.Instruction
+		for _, s := range sitesOf(fn) {
+			if s.Method != nil && s.Method.Name() == "Verify" && strings.HasSuffix(s.Method.Type().(*types.Signature).Recv().Type().String(), "crypto.PubKey") {
+				verify, verifyInstr = s.Instr.Common(), s.Instr
+			}
+		}
+		if verify == nil {
+			continue
+		}
+		n++
+		deps := func(v ssa.Value) map[*ssa.Parameter]bool {
+			out := map[*ssa.Parameter]bool{}
+			seen := map[ssa.Value]bool{}
+			var walk func(v ssa.Value, d int)
+			walk = func(v ssa.Value, d int) {
+				if v == nil || seen[v] || d > 40 {
+					return
+				}
+				seen[v] = true
+				switch x := v.(type) {
+				case *ssa.Parameter:
+					out[x] = true
+				case *ssa.Alloc:
+					// everything stored into the cell, and every call the cell's address is handed to
+					if refs := x.Referrers(); refs != nil {
+						for _, r := range *refs {
+							switch y := r.(type) {
+							case *ssa.Store:
+								if y.Addr == ssa.Value(x) {
+									walk(y.Val, d+1)
+								}
+							case *ssa.Slice, *ssa.IndexAddr, *ssa.FieldAddr:
+								if rr := r.(ssa.Value).Referrers(); rr != nil {
+									for _, z := range *rr {
+										if st, ok := z.(*ssa.Store); ok && st.Addr == r.(ssa.Value) {
+											walk(st.Val, d+1)
+										}
+										if call, ok := z.(ssa.CallInstruction); ok {
+											for _, a := range call.Common().Args {
+												walk(a, d+1)
+											}
+											if call.Common().IsInvoke() || call.Common().Value != nil {
+												walk(call.Common().Value, d+1)
+											}
+										}
+									}
+								}
+							}
+						}
+					}
+				case *ssa.Call:
+					for _, a := range x.Call.Args {
+						walk(a, d+1)
+					}
+					if x.Call.IsInvoke() {
+						walk(x.Call.Value, d+1)
+					}
+				default:
+					if in, ok := v.(ssa.Instruction); ok {
+						for _, op := range in.Operands(nil) {
+							if op != nil && *op != nil {
+								walk(*op, d+1)
+							}
+						}
+					}
+				}
+			}
+			walk(v, 0)
+			return out
+		}
+		need := map[*ssa.Parameter]bool{}
+		for _, a := range verify.Args {
+			for k := range deps(a) {
+				need[k] = true
+			}
+		}
+		if verify.IsInvoke() {
+			for k := range deps(verify.Value) {
+				need[k] = true
+			}
+		}
+		// calls on package-level objects whose result steers a branch
+		fromGlobal := func(v ssa.Value) bool {
+			for d := 0; v != nil && d < 5; d++ {
+				switch x := v.(type) {
+				case *ssa.Global:
+					return !strings.HasPrefix(x.Name(), "err") && !strings.HasPrefix(x.Name(), "Err")
+				case *ssa.UnOp:
+					v = x.X
+				case *ssa.FieldAddr:
+					v = x.X
+				case *ssa.MakeInterface:
+					v = x.X
+				default:
+					return false
+				}
+			}
+			return false
+		}
+		steers := func(call *ssa.Call) bool {
+			seen := map[ssa.Value]bool{}
+			var use func(v ssa.Value, d int) bool
+			use = func(v ssa.Value, d int) bool {
+				if seen[v] || d > 6 {
+					return false
+				}
+				seen[v] = true
+				refs := v.Referrers()
+				if refs == nil {
+					return false
+				}
+				for _, r := range *refs {
+					switch y := r.(type) {
+					case *ssa.If:
+						return true
+					case *ssa.Extract, *ssa.UnOp, *ssa.BinOp, *ssa.Phi:
+						if use(y.(ssa.Value), d+1) {
+							return true
+						}
+					}
+				}
+				return false
+			}
+			return use(call, 0)
+		}
+		nm := 0
+		allInstrs(fn, func(in ssa.Instruction) {
+			call, ok := in.(*ssa.Call)
+			if !ok || in == verifyInstr {
+				return
+			}
+			var recv ssa.Value
+			if call.Call.IsInvoke() {
+				recv = call.Call.Value
+			} else if len(call.Call.Args) > 0 && call.Call.StaticCallee() != nil && call.Call.StaticCallee().Signature.Recv() != nil {
+				recv = call.Call.Args[0]
+			}
+			if recv == nil || !fromGlobal(recv) || !steers(call) {
+				return
+			}
+			nm++
+			have := map[*ssa.Parameter]bool{}
+			for i, a := range call.Call.Args {
+				if i == 0 && !call.Call.IsInvoke() {
+					continue
+				}
+				for k := range deps(a) {
+					have[k] = true
+				}
+			}
+			var missing []string
+			for k := range need {
+				if !have[k] {
+					missing = append(missing, k.Name())
+				}
+			}
+			sort.Strings(missing)
+			c.check(len(missing) == 0, "verdict-memo-key", qname(fn)+": "+term(recv)+"."+calleeNameOf(call), p.Pos(posOf(in, fn)), "the remembered verdict is looked up under a key derived from every input of the signature check",
+				"a remembered verdict steers the signature check but its key does not depend on "+strings.Join(missing, ", ")+": a verdict reached for one (root, committee, nonce) is replayed for another — a forged unit that shares the signature bytes poisons the memory and the publisher's genuine units are rejected (or a forged one accepted)")
+		})
+		if nm == 0 {
+			c.ok("verdict-memo-key", qname(fn), p.Pos(fnPos(fn)), "the signature check consults no package-level memory: its verdict is a function of its arguments")
+		}
+	}
+	if n == 0 {
+		c.und("verdict-memo-key", "consensus/propeller", "", "no function calling crypto.PubKey.Verify found")
+	}
+}
+
+func calleeNameOf(call *ssa.Call) string {
+	if call.Call.IsInvoke() {
+		return call.Call.Method.Name()
+	}
+	if f := call.Call.StaticCallee(); f != nil {
+		return f.Name()
+	}
+	return "?"
 }
